@@ -149,7 +149,8 @@ PROPS = {
         "explanation": "exhaustive: all guard lists of length <= 2 (quick) / <= 3 (thorough) over {onlyif,skipif} x 4 labels x all 16 label subsets x 3 record kinds x engine name set/empty",
     },
     "C15": {
-        "runs": [{"profile": "c15", "n_quick": 6000, "n_thorough": 200000, "oracle": "c15"}],
+        "runs": [{"profile": "c15", "n_quick": 6000, "n_thorough": 200000, "oracle": "c15"},
+                 {"profile": "climulti", "kind": "cli", "n_quick": 25, "n_thorough": 400, "nontrivial": "any"}],
         "observable": "verdict against an expectation holding the reference digest computed by the harness with the md-5 crate on the reference value order",
         "trusted": ["md-5 crate as the reference MD5 (Md5.lean is compared against it through every hashed case and #guard-ed on the RFC 1321 vectors)"],
     },
